@@ -280,7 +280,7 @@ def build_plot_data(
                 [
                     v["tooltip"]
                     for v in field_summaries[cell].values()
-                    if v["snake_case_field"] in cell.values
+                    if v and v["snake_case_field"] in cell.values
                 ]
             ),
             **field_summaries[cell],
